@@ -424,6 +424,7 @@ impl Table {
     /// Inserts a key-value pair into the map.
     pub fn insert(&mut self, key: &str, item: Item) -> Option<Item> {
         use indexmap::map::MutableEntryKey;
+        self.remove_placeholder(key);
         let key = Key::new(key);
         match self.items.entry(key.clone()) {
             indexmap::map::Entry::Occupied(mut entry) => {
@@ -441,6 +442,7 @@ impl Table {
     /// Inserts a key-value pair into the map.
     pub fn insert_formatted(&mut self, key: &Key, item: Item) -> Option<Item> {
         use indexmap::map::MutableEntryKey;
+        self.remove_placeholder(key.get());
         match self.items.entry(key.clone()) {
             indexmap::map::Entry::Occupied(mut entry) => {
                 *entry.key_mut() = key.clone();
@@ -499,6 +501,7 @@ impl<K: Into<Key>, V: Into<Item>> Extend<(K, V)> for Table {
         for (key, value) in iter {
             let key = key.into();
             let value = value.into();
+            self.remove_placeholder(key.get());
             self.items.insert(key, value);
         }
     }
